@@ -28,7 +28,9 @@ static char root[PATH_MAX];
 static size_t root_len = 0;
 static int inited = 0;
 
-static void init(void) {
+/* runs when the library is loaded, before the program has any thread: a lazy first-call initialisation raced under -j4 (a second
+   thread could pass the flag while the first was still reading the environment, and its call was neither logged nor failed) */
+__attribute__((constructor)) static void init(void) {
     if (inited) return;
     inited = 1;
     const char *r = getenv("SY_CRASH_ROOT");
